@@ -103,6 +103,15 @@ class NTS(t.NamedTuple):  # first field is a string (adversarial: 2-character fi
     n: int
 
 
+class SubNT(NT):
+    """A subclass of a named tuple without fields of its own (inherits _fields)."""
+
+
+import collections as _collections  # noqa: E402
+
+PlainNT = _collections.namedtuple("PlainNT", "a b")  # un-annotated named tuple
+
+
 class TD(t.TypedDict):
     a: int
     b: str
